@@ -39,22 +39,36 @@ type TSClient interface {
 	// Call models call site `site` in state s. handled=false lets the engine summarise a static
 	// in-scope callee; other calls are then treated as having no effect on the state.
 	Call(x *TSCtx, site ssa.CallInstruction, s string) (outs []TSOut, handled bool)
-	// Return is invoked for every return reached, with the state and the error knowledge.
-	Return(x *TSCtx, ret *ssa.Return, s string, err ErrK)
+	// Return is invoked for every return reached, with the state and the error knowledge; it may
+	// replace the state handed back to the caller.
+	Return(x *TSCtx, ret *ssa.Return, s string, err ErrK) string
 	// Edge may transform the state when control moves from one block to another.
 	Edge(x *TSCtx, from, to *ssa.BasicBlock, s string) string
 }
 
-// TSEnv binds parameters of the function being analysed to constants of the caller.
-type TSEnv map[*ssa.Parameter]constant.Value
+// TSEnv binds parameters of the function being analysed to facts known at the call site:
+// constants, nil-ness of error arguments and emptiness of slice arguments.
+type TSEnv struct {
+	Const map[*ssa.Parameter]constant.Value
+	Err   map[*ssa.Parameter]ErrK
+	Len   map[*ssa.Parameter]int8 // 1: len == 0, 2: len > 0
+}
+
+// ConstEnv builds an environment binding one parameter to a constant.
+func ConstEnv(p *ssa.Parameter, v constant.Value) TSEnv {
+	return TSEnv{Const: map[*ssa.Parameter]constant.Value{p: v}}
+}
 
 func (e TSEnv) key() string {
-	if len(e) == 0 {
-		return ""
-	}
 	var ks []string
-	for p, v := range e {
+	for p, v := range e.Const {
 		ks = append(ks, p.Name()+"="+v.ExactString())
+	}
+	for p, v := range e.Err {
+		ks = append(ks, p.Name()+"~"+v.String())
+	}
+	for p, v := range e.Len {
+		ks = append(ks, fmt.Sprintf("%s#%d", p.Name(), v))
 	}
 	sort.Strings(ks)
 	return strings.Join(ks, ",")
@@ -73,6 +87,7 @@ type TSCtx struct {
 	Stack []ssa.CallInstruction // call sites from the root to Fn
 	tr    *trail
 	known map[ssa.Value]ErrK
+	lens  map[ssa.Value]int8
 }
 
 // Trail returns the last n steps of the current path (call sites and branch decisions).
@@ -106,7 +121,7 @@ func constOf(v ssa.Value, env TSEnv) (constant.Value, bool) {
 		}
 		return c.Value, true
 	case *ssa.Parameter:
-		cv, ok := env[c]
+		cv, ok := env.Const[c]
 		return cv, ok
 	case *ssa.Convert:
 		cv, ok := constOf(c.X, env)
@@ -139,6 +154,8 @@ type TS struct {
 	// Relevant, when non-nil, restricts summarisation to these functions (those that can reach a
 	// primitive of the client); every other callee leaves the state unchanged.
 	Relevant map[*ssa.Function]bool
+	// NoMemo disables summary reuse, so that reports raised inside a callee carry every call stack.
+	NoMemo bool
 }
 
 func NewTS(p *Prog, c TSClient) *TS {
@@ -152,6 +169,7 @@ func (t *TS) Run(fn *ssa.Function, s string, env TSEnv) []TSOut {
 
 type pstate struct {
 	s      string
+	lens   map[ssa.Value]int8
 	known  map[ssa.Value]ErrK
 	cells  map[*ssa.Alloc]ErrK
 	defers []ssa.CallInstruction
@@ -169,6 +187,10 @@ func (p pstate) clone() pstate {
 		q.cells[k] = v
 	}
 	q.defers = append([]ssa.CallInstruction(nil), p.defers...)
+	q.lens = make(map[ssa.Value]int8, len(p.lens))
+	for k, v := range p.lens {
+		q.lens[k] = v
+	}
 	return q
 }
 
@@ -180,13 +202,16 @@ func (p pstate) key(b *ssa.BasicBlock, idx int) string {
 	for a, k := range p.cells {
 		ks = append(ks, fmt.Sprintf("*%s=%d", a.Name(), k))
 	}
+	for v, k := range p.lens {
+		ks = append(ks, fmt.Sprintf("#%s=%d", v.Name(), k))
+	}
 	sort.Strings(ks)
 	return fmt.Sprintf("%d.%d|%s|%s|%d", b.Index, idx, p.s, strings.Join(ks, ","), len(p.defers))
 }
 
 func (t *TS) summarise(fn *ssa.Function, entry string, env TSEnv, stack []ssa.CallInstruction) []TSOut {
 	key := fmt.Sprintf("%p|%s|%s", fn, entry, env.key())
-	if outs, ok := t.memo[key]; ok {
+	if outs, ok := t.memo[key]; ok && !t.NoMemo {
 		return outs
 	}
 	if t.active[key] {
@@ -208,6 +233,11 @@ func (t *TS) summarise(fn *ssa.Function, entry string, env TSEnv, stack []ssa.Ca
 			for v := range ps.known {
 				if in, ok := v.(ssa.Instruction); ok && in.Block() != nil && !in.Block().Dominates(b) {
 					delete(ps.known, v)
+				}
+			}
+			for v := range ps.lens {
+				if in, ok := v.(ssa.Instruction); ok && in.Block() != nil && !in.Block().Dominates(b) {
+					delete(ps.lens, v)
 				}
 			}
 		}
@@ -273,6 +303,13 @@ func (t *TS) summarise(fn *ssa.Function, entry string, env TSEnv, stack []ssa.Ca
 				for _, ti := range taken {
 					q := ps.clone()
 					to := b.Succs[ti]
+					if coll, zeroOnTrue, ok := lenZeroTest(in.Cond); ok {
+						if (ti == 0) == zeroOnTrue {
+							q.lens[coll] = 1
+						} else {
+							q.lens[coll] = 2
+						}
+					}
 					x.tr, x.known = q.tr, q.known
 					q.s = t.Client.Edge(x, b, to, q.s)
 					run(to, 0, q)
@@ -293,8 +330,8 @@ func (t *TS) summarise(fn *ssa.Function, entry string, env TSEnv, stack []ssa.Ca
 					}
 				}
 				x.tr, x.known = ps.tr, ps.known
-				t.Client.Return(x, in, ps.s, ek)
-				outSet[TSOut{ps.s, ek}] = true
+				rs := t.Client.Return(x, in, ps.s, ek)
+				outSet[TSOut{rs, ek}] = true
 				return
 			case *ssa.Panic:
 				return
@@ -302,7 +339,14 @@ func (t *TS) summarise(fn *ssa.Function, entry string, env TSEnv, stack []ssa.Ca
 		}
 	}
 	if len(fn.Blocks) > 0 {
-		run(fn.Blocks[0], 0, pstate{s: entry, known: map[ssa.Value]ErrK{}, cells: map[*ssa.Alloc]ErrK{}})
+		ps0 := pstate{s: entry, known: map[ssa.Value]ErrK{}, cells: map[*ssa.Alloc]ErrK{}, lens: map[ssa.Value]int8{}}
+		for p, k := range env.Err {
+			ps0.known[p] = k
+		}
+		for p, k := range env.Len {
+			ps0.lens[p] = k
+		}
+		run(fn.Blocks[0], 0, ps0)
 	}
 	var outs []TSOut
 	for o := range outSet {
@@ -386,6 +430,12 @@ func (t *TS) evalCond(cond ssa.Value, ps *pstate, env TSEnv) (bool, bool) {
 		}
 		return false, false
 	}
+	if coll, zeroOnTrue, ok := lenZeroTest(cond); ok {
+		if k, known := ps.lens[coll]; known {
+			return (k == 1) == zeroOnTrue, true
+		}
+		return false, false
+	}
 	if b, ok := cond.(*ssa.BinOp); ok {
 		x, okx := constOf(b.X, env)
 		y, oky := constOf(b.Y, env)
@@ -406,13 +456,15 @@ func (t *TS) evalCond(cond ssa.Value, ps *pstate, env TSEnv) (bool, bool) {
 
 // dispatch computes the outcomes of one call.
 func (t *TS) dispatch(x *TSCtx, site ssa.CallInstruction, ps *pstate) []TSOut {
-	x.tr, x.known = ps.tr, ps.known
+	x.tr, x.known, x.lens = ps.tr, ps.known, ps.lens
 	if outs, handled := t.Client.Call(x, site, ps.s); handled {
 		return outs
 	}
 	callee := StaticCallee(site)
-	if callee != nil && t.P.InScope(callee) && !t.Opaque[callee] && (t.Relevant == nil || t.Relevant[callee]) {
-		return t.Summarise(x, site, callee, ps.s)
+	if callee != nil && t.P.InScope(callee) && !t.Opaque[callee] {
+		if t.Relevant == nil || t.Relevant[callee] || (t.P.InPkg(callee, "wire") && t.knownErrArg(x, site)) {
+			return t.Summarise(x, site, callee, ps.s)
+		}
 	}
 	ek := KNoErr
 	if c, ok := site.(*ssa.Call); ok && errIdxOfCall(c) >= 0 {
@@ -426,7 +478,7 @@ func (t *TS) dispatch(x *TSCtx, site ssa.CallInstruction, ps *pstate) []TSOut {
 
 // Summarise applies callee at site in state s (available to clients for resolved interface calls).
 func (t *TS) Summarise(x *TSCtx, site ssa.CallInstruction, callee *ssa.Function, s string) []TSOut {
-	env := TSEnv{}
+	env := TSEnv{Const: map[*ssa.Parameter]constant.Value{}, Err: map[*ssa.Parameter]ErrK{}, Len: map[*ssa.Parameter]int8{}}
 	args := site.Common().Args
 	params := callee.Params
 	if site.Common().IsInvoke() && len(params) == len(args)+1 {
@@ -435,7 +487,21 @@ func (t *TS) Summarise(x *TSCtx, site ssa.CallInstruction, callee *ssa.Function,
 	for i, p := range params {
 		if i < len(args) {
 			if cv, ok := constOf(args[i], x.Env); ok {
-				env[p] = cv
+				env.Const[p] = cv
+			}
+			if IsErrorType(p.Type()) {
+				if k, ok := x.known[args[i]]; ok && (k == KNil || k == KNonNil) {
+					env.Err[p] = k
+				} else if c := t.Err.Classify(args[i], nil); c.OnlyNil() {
+					env.Err[p] = KNil
+				} else if c.NeverNil() {
+					env.Err[p] = KNonNil
+				}
+			}
+			if k, ok := x.lens[StripConv(args[i])]; ok {
+				env.Len[p] = k
+			} else if k, ok := x.lens[args[i]]; ok {
+				env.Len[p] = k
 			}
 		}
 	}
@@ -465,4 +531,55 @@ func (t *TS) runDefers(x *TSCtx, b *ssa.BasicBlock, i int, ps pstate, run func(*
 		}
 	}
 	step(len(ps.defers)-1, ps)
+}
+
+// knownErrArg reports whether some error-typed argument of the call has known nil-ness on this path.
+func (t *TS) knownErrArg(x *TSCtx, site ssa.CallInstruction) bool {
+	for _, a := range site.Common().Args {
+		if IsErrorType(a.Type()) {
+			if k, ok := x.known[a]; ok && (k == KNil || k == KNonNil) {
+				return true
+			}
+		}
+	}
+	return false
+}
+
+// lenZeroTest decomposes cond into a test of len(coll) against zero: len == 0, len != 0, len > 0, 0 < len.
+func lenZeroTest(cond ssa.Value) (coll ssa.Value, zeroOnTrue bool, ok bool) {
+	b, isb := cond.(*ssa.BinOp)
+	if !isb {
+		return nil, false, false
+	}
+	x, y := b.X, b.Y
+	op := b.Op
+	if k, isC := ConstInt(x); isC && k == 0 { // 0 op len  ->  len op' 0
+		x, y = y, x
+		switch op {
+		case token.LSS:
+			op = token.GTR
+		case token.GEQ:
+			op = token.LEQ
+		case token.GTR:
+			op = token.LSS
+		case token.LEQ:
+			op = token.GEQ
+		}
+	}
+	k, isC := ConstInt(y)
+	if !isC || k != 0 {
+		return nil, false, false
+	}
+	c, isLen := IsLenOf(x)
+	if !isLen {
+		return nil, false, false
+	}
+	c = StripConv(c)
+	switch op {
+	case token.EQL, token.LEQ:
+		return c, true, true
+	case token.NEQ, token.GTR:
+		return c, false, true
+	}
+	return nil, false, false
 }
